@@ -318,8 +318,9 @@ def read_case_input(casedir, idx):
     return None
 
 
-def write_evidence(pid, tier, seed, level, coverage, assumptions, wall, violations):
-    d = os.path.join(VERIF, "evidence")
+def write_evidence(pid, tier, seed, level, coverage, assumptions, wall, violations, outdir=None):
+    # evidence/<ID>.json describes runs against /repo only; a run against another tree (VERIF_REPO) writes into its scratch dir
+    d = outdir or os.path.join(VERIF, "evidence")
     os.makedirs(d, exist_ok=True)
     ev = {"property_id": pid, "tier": tier, "seed": seed, "level": level, "coverage": coverage,
           "assumptions": assumptions, "wall_s": round(wall, 2), "violations": violations}
